@@ -34,7 +34,7 @@ RULE = (
 ASSUMPTIONS = [
     "with_a() / with_a(MISSING) builds a fresh value of the declared type (documented pipeline step 4) - it is not a no-op",
     "identity of the result for state no-ops is only asserted for _if=False",
-    "reset_a / del on an attribute with a preparer may restore the default with or without running the preparer (see known finding under C08); "
+    "reset_a / del restore the default as a newly constructed instance holds it, i.e. prepared (so do the dependants that an invalidation resets); "
     "an attribute without default that is already missing may raise AttributeError or return an equal copy",
     "the model covers: with_/transform_/reset_ on every attribute kind with whole conforming values, update_/with_ with nested keywords on spec attributes, "
     "update/transform/reset as folds; other forms are checked through relations (2)-(5) only",
